@@ -22,6 +22,7 @@ THEOREMS = [
     "QExPy.C02_standardised_draws", "QExPy.C02_draws_carry_correlations3", "QExPy.C02_affine_exact",
     "QExPy.C02_result_def", "QExPy.C02_result_moments", "QExPy.C02_discard", "QExPy.C02_kept_le",
     "QExPy.C02_scaleShift_moments", "QExPy.C02_dataSets_entry",
+    "QExPy.C02_fallback_uncorrelated3",
 ]
 RULE = ("seeded formula DAGs over 1-3 measurements (all operators, shared sub-expressions), "
         "sigma/|mu| in [1e-3, 0.5] or 0, correlation structure in {none, random PD, near-singular "
